@@ -222,6 +222,10 @@ def oracle_c07(seq, obs):
         inv = [e for e in o["trace"] if e[0] == "I"]
         recs = [e for e in o["trace"] if e[0] in ("KS", "KF", "KC")]
         d = o["delivery"]
+        if inv and not ka and call["entry"].split(".")[0] in ("policy", "retrypolicybrk"):
+            # a call that is never put to the breaker can never be rejected: no fail-fast, no single probe
+            return (f"call #{j} ({call['entry']}): the operation was invoked without the policy's breaker being asked for admission "
+                    f"(breaker object: a CircuitBreaker subclass with len() == {0 if seq.get('falsy_shared', True) else 1})")
         if ka:
             allowed, state, event, t = ka[0][1], ka[0][2], ka[0][3], ka[0][4]
             if opened_at is not None and t - opened_at < rto and allowed:
@@ -420,7 +424,8 @@ def run_policy_check(chk, pid, proj, opts, oracle_pid=None, n_quick=300, n_thoro
         raise common.DriverError("runner_driver failed on a script: " + str(drv[0][1][1])[-1500:])
     bad = []
     if oracle:
-        bad = [(i, m) for i, (s, o) in enumerate(zip(seqs, obs)) for m in [oracle(s, o)] if m]
+        import oracles
+        bad = [(i, m) for i, (s, o) in enumerate(zip(seqs, obs)) for m in [oracles.runaway(s, o) or oracle(s, o)] if m]
     if extra_oracle:
         bad += extra_oracle(seqs, obs)
     failing, errors = [], []
@@ -499,7 +504,8 @@ def run_c07_policy_part(chk, theorems_ok):
     failing, errors = ([], [])
     if theorems_ok:
         failing, errors = compare_in_coq(chk, seqs, obs, "proj_P07", name="policy07")
-    bad = [(i, m) for i, (s, o) in enumerate(zip(seqs, obs)) for m in [oracle_c07(s, o)] if m]
+    import oracles
+    bad = [(i, m) for i, (s, o) in enumerate(zip(seqs, obs)) for m in [oracles.runaway(s, o) or oracle_c07(s, o)] if m]
     st = stats(seqs, obs)
     chk.coverage["policy_level"] = {
         "evaluations": len(seqs), "calls": st["calls"], "rejected_calls": st["rejected"], "probes_admitted": st["half_open"],
